@@ -244,7 +244,10 @@ static void store(Type *ty) {
     println("  movsd %%xmm0, (%%rdi)");
     return;
   case TY_LDOUBLE:
+    // fstpt pops the value, but an assignment is an expression whose
+    // value may be used, so load it back.
     println("  fstpt (%%rdi)");
+    println("  fldt (%%rdi)");
     return;
   }
 
@@ -292,6 +295,14 @@ static void cmp_zero(Type *ty) {
     println("  cmp $0, %%eax");
   else
     println("  cmp $0, %%rax");
+}
+
+// Discard the value of an expression whose result is not used. Integer
+// and SSE values live in registers that are simply overwritten, but a
+// long double occupies a slot of the x87 register stack until popped.
+static void discard(Type *ty) {
+  if (ty && ty->kind == TY_LDOUBLE)
+    println("  fstp %%st(0)");
 }
 
 enum { I8, I16, I32, I64, U8, U16, U32, U64, F32, F64, F80 };
@@ -419,8 +430,10 @@ static char *cast_table[][11] = {
 };
 
 static void cast(Type *from, Type *to) {
-  if (to->kind == TY_VOID)
+  if (to->kind == TY_VOID) {
+    discard(from);
     return;
+  }
 
   if (to->kind == TY_BOOL) {
     cmp_zero(from);
@@ -834,11 +847,20 @@ static void gen_expr(Node *node) {
     store(node->ty);
     return;
   case ND_STMT_EXPR:
-    for (Node *n = node->body; n; n = n->next)
-      gen_stmt(n);
+    for (Node *n = node->body; n; n = n->next) {
+      // The value of the last expression statement is the value of
+      // the statement expression, so it must not be discarded.
+      if (!n->next && n->kind == ND_EXPR_STMT) {
+        println("  .loc %d %d", n->tok->file->file_no, n->tok->line_no);
+        gen_expr(n->lhs);
+      } else {
+        gen_stmt(n);
+      }
+    }
     return;
   case ND_COMMA:
     gen_expr(node->lhs);
+    discard(node->lhs->ty);
     gen_expr(node->rhs);
     return;
   case ND_CAST:
@@ -1249,8 +1271,10 @@ static void gen_stmt(Node *node) {
     }
     gen_stmt(node->then);
     println("%s:", node->cont_label);
-    if (node->inc)
+    if (node->inc) {
       gen_expr(node->inc);
+      discard(node->inc->ty);
+    }
     println("  jmp .L.begin.%d", c);
     println("%s:", node->brk_label);
     return;
@@ -1332,6 +1356,7 @@ static void gen_stmt(Node *node) {
     return;
   case ND_EXPR_STMT:
     gen_expr(node->lhs);
+    discard(node->lhs->ty);
     return;
   case ND_ASM:
     println("  %s", node->asm_str);
